@@ -475,7 +475,9 @@ fn corpus_b() -> Vec<CatCase> {
 
 fn main() {
     let args = Args::parse();
-    csv_common::quiet_panics();
+    if std::env::var("CSV_PRUNE_LOUD").is_err() {
+        csv_common::quiet_panics();
+    }
     let rt = tokio::runtime::Builder::new_current_thread().enable_all().build().unwrap();
     let mut model = Model::spawn(&args.model);
     let mut report = Report::new("C12");
